@@ -1669,7 +1669,8 @@ impl Scenario for Ics20Scen {
     ///   receiver, ack / timeout refunds, next block);
     /// * variant 1 — no default gas limit, token0 listed without limit: the allow list and its gate (new token, raise,
     ///   lower, stranger, hand-over of governance, default gas limit by migrate), cw20 sends / payouts / refunds of
-    ///   both tokens (token1 refuses the payout), undecodable packet, wrong port;
+    ///   both tokens (token1 refuses the payout), packets as exact bytes (`data=`: one undecodable, one with an
+    ///   unknown field / another field order), wrong port;
     /// * variant 2 — a pre-0.12 (v1) storage layout with one channel and one native coin in flight under the old
     ///   rules, to be migrated (a second channel makes the migration impossible).
     fn small_scope(&mut self, variant: u64) -> Option<SmallScope> {
@@ -1725,10 +1726,18 @@ impl Scenario for Ics20Scen {
                     send(&t0),
                     // not on the allow list (until the governance lists it / a default gas limit is set)
                     send(&t1),
-                    recv0(&c0, 1, &rcv, 0),
+                    // exact bytes: an unknown field, another field order, whitespace, `+1`
+                    format!(
+                        "ibc recv chan=channel-0 sport={REMOTE_PORT} schan=channel-1 denom={REMOTE_PORT}/channel-1/{c0} amt=1 rcv={rcv} snd=remote0 tv=1 fail=0 data={}",
+                        hex(format!("{{ \"x\":[1,{{}}], \"receiver\":\"{p2}\",\"amount\":\"+1\",\"denom\":\"{REMOTE_PORT}/channel-1/{c0}\",\"sender\":\"remote0\",\"memo\":null }}").as_bytes())
+                    ),
                     // token1 refuses the payout
                     recv0(&c1, 1, &rcv, 1),
-                    format!("ibc recv chan=channel-0 sport={REMOTE_PORT} schan=channel-1 raw=1 rcv={rcv} tv=1 fail=0"),
+                    // undecodable data, as exact bytes: the amount is given twice
+                    format!(
+                        "ibc recv chan=channel-0 sport={REMOTE_PORT} schan=channel-1 denom={REMOTE_PORT}/channel-1/{c0} amt=1 rcv={rcv} snd=remote0 tv=1 fail=0 data={}",
+                        hex(format!("{{\"amount\":\"1\",\"amount\":\"1\",\"denom\":\"{REMOTE_PORT}/channel-1/{c0}\",\"receiver\":\"{p2}\",\"sender\":\"remote0\"}}").as_bytes())
+                    ),
                     // wrong port
                     format!("ibc recv chan=channel-0 sport={REMOTE_PORT} schan=channel-1 denom=otherport/channel-1/{c0} amt=1 rcv={rcv} snd=remote0 tv=1 fail=0"),
                     format!("ibc ack {} ok=0 fail=0", flight("channel-0", &c0, 1)),
